@@ -169,8 +169,7 @@ func TestVerifProbeEval(t *testing.T) {
 }
 
 // vgroup evaluates one generated group through the real module: request channel, cache, evaluateConsumerStatus,
-// with the storage reply supplied by the probe.  Both views are requested (full first, so that the filtered view is
-// served from the same cached evaluation).
+// with the storage reply supplied by the probe.  Both views are requested from one cached evaluation, in both orders.
 func vgroup(t *vtoks, caseNo int, decimal bool) (res string) {
 	minimumBits := uint32(t.u64())
 	// minimum-complete reaches the module the way a configuration file delivers it: as a float64 through viper and
@@ -242,12 +241,22 @@ func vgroup(t *vtoks, caseNo int, decimal bool) (res string) {
 		}
 		return vfmtGroup(resp)
 	}
-	all := ask(true)
-	filt := ask(false)
-	all2 := ask(true)
+	// every third case asks for the filtered view FIRST (so that the cached evaluation is created by a filtered
+	// request and the full view is served from it), the others full first; the view asked first is asked again last
+	var all, filt string
 	same := "1"
-	if all != all2 {
-		same = "0"
+	if caseNo%3 == 1 {
+		filt = ask(false)
+		all = ask(true)
+		if ask(false) != filt {
+			same = "0"
+		}
+	} else {
+		all = ask(true)
+		filt = ask(false)
+		if ask(true) != all {
+			same = "0"
+		}
 	}
 	return all + " || " + filt + " || SAME " + same + " FETCHES " + strconv.Itoa(fetches)
 }
